@@ -796,60 +796,7 @@ func c01rest(c *an.Ctx) {
 	})
 
 	c.Check("R-PAIR", "resolveUnionBatch: one resolveObjectBatch call per member type with all applicable fragments (single writer per destination); non-nil members always filled", 2, func(o *an.O) {
-		fn := c.NeedFunc(gq, "resolveUnionBatch")
-		calls := an.Calls(fn, an.Mod(gq, "", "resolveObjectBatch"))
-		if len(calls) != 1 {
-			o.Fail(p.Pos(fn.Pos()), "expected one resolveObjectBatch call site, found %d", len(calls))
-			return
-		}
-		call := calls[0]
-		o.Site(call)
-		// the call must not sit in a loop over selectionSet.Fragments
-		for _, e := range rangeElems(fn, "Fragments") {
-			h := an.LoopHeaderOf(e)
-			for _, eh := range an.EnclosingLoops(call) {
-				if h != nil && eh == h {
-					o.FailAt(call, "resolveObjectBatch is called once per matching fragment with the same destinations: a second `... on T` overwrites the fields the first one filled, and a member without a matching fragment is rendered as null")
-				}
-			}
-		}
-		// fragments are filtered by fragment.On == member type and collected into the selection set handed over
-		sel := an.CallOf(call).Args[3]
-		al, ok := sel.(*ssa.Alloc)
-		if !ok {
-			o.FailAt(call, "resolveObjectBatch is given %s, not a selection set assembled from all applicable fragments", an.Expr(sel))
-			return
-		}
-		okFrag, okSel := false, false
-		for _, r := range *al.Referrers() {
-			fa, ok := r.(*ssa.FieldAddr)
-			if !ok {
-				continue
-			}
-			for _, u := range *fa.Referrers() {
-				st, ok := u.(*ssa.Store)
-				if !ok {
-					continue
-				}
-				switch an.FieldName(fa.X.Type(), fa.Field) {
-				case "Fragments":
-					o.Site(st)
-					gs := strings.Join(an.GuardStrings(st.Block()), " ")
-					if strings.Contains(gs, ".On == ") || strings.Contains(gs, "!(") && strings.Contains(gs, ".On != ") || strings.Contains(gs, ".On != ") {
-						okFrag = true
-					}
-				case "Selections":
-					okSel = strings.HasSuffix(an.Expr(st.Val), ".Selections")
-				}
-			}
-		}
-		if !okFrag {
-			o.FailAt(call, "the fragments handed to resolveObjectBatch are not selected by fragment.On == member type")
-		}
-		if !okSel {
-			o.FailAt(call, "union-level selections (__typename) are not passed on to the member object")
-		}
-		// sources/destinations per type built in lock step is covered by the alignment rule.
+		ruleUnionMemberSelection(c, o)
 	})
 
 	c.Check("R-EXH", "resolveBatch dispatches on every graphql.Type kind and panics on anything else", 1, func(o *an.O) {
@@ -959,4 +906,66 @@ func firstCallOf(fn *ssa.Function) ssa.Instruction {
 		}
 	})
 	return first
+}
+
+// ruleUnionMemberSelection (shared by C01 and C19): a union member is resolved
+// once, against a selection set assembled from ALL fragments that apply to its
+// type plus the union-level selections - directive handling is left to
+// resolveObjectBatch, so an excluded fragment removes exactly its own fields.
+func ruleUnionMemberSelection(c *an.Ctx, o *an.O) {
+	p := c.P
+	fn := c.NeedFunc(gq, "resolveUnionBatch")
+
+	calls := an.Calls(fn, an.Mod(gq, "", "resolveObjectBatch"))
+	if len(calls) != 1 {
+		o.Fail(p.Pos(fn.Pos()), "expected one resolveObjectBatch call site, found %d", len(calls))
+		return
+	}
+	call := calls[0]
+	o.Site(call)
+	// the call must not sit in a loop over selectionSet.Fragments
+	for _, e := range rangeElems(fn, "Fragments") {
+		h := an.LoopHeaderOf(e)
+		for _, eh := range an.EnclosingLoops(call) {
+			if h != nil && eh == h {
+				o.FailAt(call, "resolveObjectBatch is called once per matching fragment with the same destinations: a second `... on T` overwrites the fields the first one filled, and a member without a matching fragment is rendered as null")
+			}
+		}
+	}
+	// fragments are filtered by fragment.On == member type and collected into the selection set handed over
+	sel := an.CallOf(call).Args[3]
+	al, ok := sel.(*ssa.Alloc)
+	if !ok {
+		o.FailAt(call, "resolveObjectBatch is given %s, not a selection set assembled from all applicable fragments", an.Expr(sel))
+		return
+	}
+	okFrag, okSel := false, false
+	for _, r := range *al.Referrers() {
+		fa, ok := r.(*ssa.FieldAddr)
+		if !ok {
+			continue
+		}
+		for _, u := range *fa.Referrers() {
+			st, ok := u.(*ssa.Store)
+			if !ok {
+				continue
+			}
+			switch an.FieldName(fa.X.Type(), fa.Field) {
+			case "Fragments":
+				o.Site(st)
+				gs := strings.Join(an.GuardStrings(st.Block()), " ")
+				if strings.Contains(gs, ".On == ") || strings.Contains(gs, "!(") && strings.Contains(gs, ".On != ") || strings.Contains(gs, ".On != ") {
+					okFrag = true
+				}
+			case "Selections":
+				okSel = strings.HasSuffix(an.Expr(st.Val), ".Selections")
+			}
+		}
+	}
+	if !okFrag {
+		o.FailAt(call, "the fragments handed to resolveObjectBatch are not selected by fragment.On == member type")
+	}
+	if !okSel {
+		o.FailAt(call, "union-level selections (__typename) are not passed on to the member object")
+	}
 }
